@@ -712,8 +712,19 @@ class Parser:
         return self.mk("p_path", start, segs)
 
 
+_PARSE_CACHE = {}
+
+
 def parse_body(text):
     """a fn body / block inside (without the outer braces) -> block node, parser"""
+    if ("b", text) in _PARSE_CACHE:
+        return _PARSE_CACHE[("b", text)]
+    r = _parse_body(text)
+    _PARSE_CACHE[("b", text)] = r
+    return r
+
+
+def _parse_body(text):
     p = Parser(text)
     b = p.parse_block_body("\0")
     if p.peek().kind != "eof":
@@ -722,6 +733,14 @@ def parse_body(text):
 
 
 def parse_expression(text):
+    if ("e", text) in _PARSE_CACHE:
+        return _PARSE_CACHE[("e", text)]
+    r = _parse_expression(text)
+    _PARSE_CACHE[("e", text)] = r
+    return r
+
+
+def _parse_expression(text):
     p = Parser(text)
     e = p.parse_stmt()
     while p.at(";"):
@@ -774,6 +793,7 @@ class Evaluator:
         self.src, self.X, self.depth = src, X, depth
         self.effects = []
         self._fn_cache = {}
+        self.inject = {}        # name -> value: a `let` (or any pattern) that binds this name binds the given value instead
 
     # ---- helpers
     def lookup_fn(self, name, scopes):
@@ -815,7 +835,7 @@ class Evaluator:
         if k == "p_bind":
             if pat[2] is not None and not self.pmatch(pat[2], val, env, scopes):
                 return False
-            env[pat[1]] = val
+            env[pat[1]] = self.inject.get(pat[1], val)
             return True
         if k == "p_or":
             return any(self.pmatch(a, val, env, scopes) for a in pat[1])
@@ -1394,9 +1414,11 @@ class Outcome:
         return self.how in ("error", "panic") or (isinstance(self.value, tuple) and bool(self.value) and self.value[0] == "Err")
 
 
-def run(X, code, env, src, scopes=None, depth=6, is_expr=False):
-    """run `code` (the inside of a block, or one expression) with the given environment"""
+def run(X, code, env, src, scopes=None, depth=6, is_expr=False, inject=None):
+    """run `code` (the inside of a block, or one expression) with the given environment; inject = {local name: value} gives
+    the values of locals that the code itself binds from something opaque (`let c = self.peek_byte()?;`)"""
     ev = Evaluator(src, X, depth)
+    ev.inject = dict(inject or {})
     scopes = list(scopes or []) + [src]
     if code not in scopes:
         scopes = [code] + scopes
